@@ -174,80 +174,102 @@ def eqRule (a b : Tm) : Option Tm :=
   | _, _ => none
 
 /-- non-commutative operators: `a` is the first (top of stack) operand -/
+def subRule (a b : Tm) : Option Tm :=
+  if a = b then some (.const 0#256) else
+  match b with
+  | .const w => if w = 0#256 then some a else none
+  | _ => none
+
+def divRule (a b : Tm) : Option Tm :=
+  match a, b with
+  | _, .const w =>
+    if w = 0#256 then some (.const 0#256) else if w = 1#256 then some a else
+    match pow2? w with
+    | some k => some (.bin .shr (.const (BitVec.ofNat 256 k)) a)
+    | none => none
+  -- DIV(x, SHL(y, 1)) = SHR(y, x)
+  | x, .bin .shl y (.const w) =>
+    if w = 1#256 then some (.bin .shr y x)
+    else match x with
+      | .const v => if v = 0#256 then some (.const 0#256) else none
+      | _ => none
+  | .const w, _ => if w = 0#256 then some (.const 0#256) else none
+  | _, _ => none
+
+def sdivRule (a b : Tm) : Option Tm :=
+  match a, b with
+  | _, .const w =>
+    if w = 0#256 then some (.const 0#256) else if w = 1#256 then some a else none
+  | .const w, _ => if w = 0#256 then some (.const 0#256) else none
+  | _, _ => none
+
+def modRule (a b : Tm) : Option Tm :=
+  if a = b then some (.const 0#256) else
+  match b with
+  | .const w => if w = 0#256 || w = 1#256 then some (.const 0#256) else none
+  | _ => none
+
+def expRule (a b : Tm) : Option Tm :=
+  match a, b with
+  | _, .const w =>
+    if w = 0#256 then some (.const 1#256) else if w = 1#256 then some a else
+    match a with
+    | .const v => if v = 1#256 then some (.const 1#256) else none
+    | _ => none
+  | .const w, x =>
+    if w = 1#256 then some (.const 1#256)
+    else if w = 0#256 then some (mkIszero x)
+    else if w = 2#256 then some (.bin .shl x (.const 1#256))
+    else none
+  | _, _ => none
+
+def gtRule (a b : Tm) : Option Tm :=
+  if a = b then some (.const 0#256) else
+  match a, b with
+  | .const w, x =>
+    if w = 0#256 then some (.const 0#256)
+    else if w = 1#256 then some (mkIszero x) else none
+  -- GT(x, 0) = ISZERO(ISZERO(x))
+  | x, .const w => if w = 0#256 then some (.un .iszero (.un .iszero x)) else none
+  | _, _ => none
+
+def ltRule (a b : Tm) : Option Tm :=
+  if a = b then some (.const 0#256) else
+  match a, b with
+  | x, .const w =>
+    if w = 0#256 then some (.const 0#256)
+    else if w = 1#256 then some (mkIszero x) else none
+  | .const w, x => if w = 0#256 then some (.un .iszero (.un .iszero x)) else none
+  | _, _ => none
+
+def selfZeroRule (a b : Tm) : Option Tm := if a = b then some (.const 0#256) else none
+
+/-- shared by SHL and SHR -/
+def shiftRule (a b : Tm) : Option Tm :=
+  match a, b with
+  | .const w, x => if w = 0#256 then some x else if 256 ≤ w.toNat then some (.const 0#256) else none
+  | _, .const w => if w = 0#256 then some (.const 0#256) else none
+  | _, _ => none
+
+def sarRule (a b : Tm) : Option Tm :=
+  match a with
+  | .const w => if w = 0#256 then some b else none
+  | _ => none
+
 def ncRule (op : BinOp) (a b : Tm) : Option Tm :=
   match op with
-  | .sub =>
-    if a = b then some (.const 0#256) else
-    match b with
-    | .const w => if w = 0#256 then some a else none
-    | _ => none
-  | .div =>
-    match a, b with
-    | _, .const w =>
-      if w = 0#256 then some (.const 0#256) else if w = 1#256 then some a else
-      match pow2? w with
-      | some k => some (.bin .shr (.const (BitVec.ofNat 256 k)) a)
-      | none => none
-    -- DIV(x, SHL(y, 1)) = SHR(y, x)
-    | x, .bin .shl y (.const w) =>
-      if w = 1#256 then some (.bin .shr y x)
-      else match x with
-        | .const v => if v = 0#256 then some (.const 0#256) else none
-        | _ => none
-    | .const w, _ => if w = 0#256 then some (.const 0#256) else none
-    | _, _ => none
-  | .sdiv =>
-    match a, b with
-    | _, .const w =>
-      if w = 0#256 then some (.const 0#256) else if w = 1#256 then some a else none
-    | .const w, _ => if w = 0#256 then some (.const 0#256) else none
-    | _, _ => none
-  | .mod =>
-    if a = b then some (.const 0#256) else
-    match b with
-    | .const w => if w = 0#256 || w = 1#256 then some (.const 0#256) else none
-    | _ => none
-  | .exp =>
-    match a, b with
-    | _, .const w =>
-      if w = 0#256 then some (.const 1#256) else if w = 1#256 then some a else
-      match a with
-      | .const v => if v = 1#256 then some (.const 1#256) else none
-      | _ => none
-    | .const w, x =>
-      if w = 1#256 then some (.const 1#256)
-      else if w = 0#256 then some (mkIszero x)
-      else if w = 2#256 then some (.bin .shl x (.const 1#256))
-      else none
-    | _, _ => none
-  | .gt =>
-    if a = b then some (.const 0#256) else
-    match a, b with
-    | .const w, x =>
-      if w = 0#256 then some (.const 0#256)
-      else if w = 1#256 then some (mkIszero x) else none
-    -- GT(x, 0) = ISZERO(ISZERO(x))
-    | x, .const w => if w = 0#256 then some (.un .iszero (.un .iszero x)) else none
-    | _, _ => none
-  | .lt =>
-    if a = b then some (.const 0#256) else
-    match a, b with
-    | x, .const w =>
-      if w = 0#256 then some (.const 0#256)
-      else if w = 1#256 then some (mkIszero x) else none
-    | .const w, x => if w = 0#256 then some (.un .iszero (.un .iszero x)) else none
-    | _, _ => none
-  | .sgt => if a = b then some (.const 0#256) else none
-  | .slt => if a = b then some (.const 0#256) else none
-  | .shl | .shr =>
-    match a, b with
-    | .const w, x => if w = 0#256 then some x else if 256 ≤ w.toNat then some (.const 0#256) else none
-    | _, .const w => if w = 0#256 then some (.const 0#256) else none
-    | _, _ => none
-  | .sar =>
-    match a with
-    | .const w => if w = 0#256 then some b else none
-    | _ => none
+  | .sub => subRule a b
+  | .div => divRule a b
+  | .sdiv => sdivRule a b
+  | .mod => modRule a b
+  | .exp => expRule a b
+  | .gt => gtRule a b
+  | .lt => ltRule a b
+  | .sgt => selfZeroRule a b
+  | .slt => selfZeroRule a b
+  | .shl => shiftRule a b
+  | .shr => shiftRule a b
+  | .sar => sarRule a b
   | _ => none
 
 def commRule (op : BinOp) (a b : Tm) : Option Tm :=
@@ -380,21 +402,41 @@ def mkSstore (s k v : Tm) : Tm :=
 end Norm
 
 open Norm in
-/-- one bottom-up normalisation pass -/
-def norm : Tm → Tm
-  | .env1 n a => mkEnv1 n (norm a)
-  | .un op a => mkUn op (norm a)
-  | .bin op a b => mkBin op (norm a) (norm b)
-  | .ter op a b c => mkTer op (norm a) (norm b) (norm c)
-  | .mload m a => mkMload (norm m) (norm a)
-  | .sload s k => mkSload (norm s) (norm k)
-  | .keccak m off len => mkKeccak (norm m) (norm off) (norm len)
-  | .mstore m a v => mkMstore (norm m) (norm a) (norm v)
-  | .mstore8 m a v => mkMstore8 (norm m) (norm a) (norm v)
-  | .sstore s k v => mkSstore (norm s) (norm k) (norm v)
+mutual
+/-- one bottom-up normalisation pass over a word-valued term -/
+def normW : Tm → Tm
+  | .env1 n a => mkEnv1 n (normW a)
+  | .un op a => mkUn op (normW a)
+  | .bin op a b => mkBin op (normW a) (normW b)
+  | .ter op a b c => mkTer op (normW a) (normW b) (normW c)
+  | .mload m a => mkMload (normM m) (normW a)
+  | .sload s k => mkSload (normS s) (normW k)
+  | .keccak m off len => mkKeccak (normM m) (normW off) (normW len)
   | t => t
+/-- … over a memory-valued term -/
+def normM : Tm → Tm
+  | .mstore m a v => mkMstore (normM m) (normW a) (normW v)
+  | .mstore8 m a v => mkMstore8 (normM m) (normW a) (normW v)
+  | t => t
+/-- … over a storage-valued term -/
+def normS : Tm → Tm
+  | .sstore s k v => mkSstore (normS s) (normW k) (normW v)
+  | t => t
+end
+
+/-- a normaliser: one function per sort -/
+structure Normaliser where
+  w : Tm → Tm
+  m : Tm → Tm
+  s : Tm → Tm
 
 /-- three passes: a rewrite can expose a redex one level up -/
-def norm3 (t : Tm) : Tm := norm (norm (norm t))
+def norm3 : Normaliser where
+  w t := normW (normW (normW t))
+  m t := normM (normM (normM t))
+  s t := normS (normS (normS t))
+
+/-- the identity normaliser (purely syntactic comparison) -/
+def normId : Normaliser := ⟨id, id, id⟩
 
 end GasolVerif
